@@ -8,16 +8,19 @@ SRC_TIE = True
 LEVEL = 'proof'
 EXPLANATION = ('Lean theorems for every cell (symbolic S) and all a <= res <= b <= 29, unbounded depth: children list = exactly the valid level-b ids whose parent at res(c) is c, '
                'Nodup, length = get_num_children; parent composes, is total and unique; for res >= 1 the children are first + i*stride and contain every valid id between first and last; '
-               'out-of-order requests raise. Tie: regenerated constants + differential correspondence of cell_to_children/cell_to_parent/get_stride/is_first_child.')
+               'out-of-order requests raise. Tie: regenerated constants + differential correspondence of cell_to_children/cell_to_parent/get_stride/is_first_child.'
+               " SOURCE-LEVEL TIE (every run): the functions of this property's cone are translated from /repo's current source by tools/py2lean.py into Lean definitions (A5/Gen/Src.lean); bridge theorems prove, for every input (no sampling), that the translated definitions compute exactly what the hand-written model computes, and the headline theorems are restated about the translated source (`*_of_source`). A source change changes the generated definitions and the kernel re-checks the bridges; a construct outside the translated subset (decorators, global state, …) is reported as a broken tie.")
 RULE = ('ops: structured ids (all of levels <= 3/6, S patterns to resolution 29, malformed) x parent at every a in -2..r+1 x children at r-1..r+3 (and 29..31 near the bottom); '
         'search: children vs independent reference set, parent of each child, composition chains, contiguity, errors')
 TRUSTED_BASE = ['Lean 4.33 kernel', 'axioms: propext, Classical.choice, Quot.sound only', 'tools/gen_tables.py',
-                'line-protocol correspondence harness (sampled agreement on infinite domains)', 'CPython int semantics as modelled']
-ASSUMPTIONS = ['the sampled agreement between the Lean model and a5/core/serialization.py extends to all inputs']
+                'line-protocol correspondence harness (second, independent tie: sampled agreement of the hand-written model with the implementation)', 'CPython int semantics as modelled',
+                'tools/py2lean.py (syntax-directed translation of the Python source into A5/Gen/Src.lean, regenerated every run) and the operator semantics of A5/Model/PySem.lean — both exercised every run by executing the translated source (lean/SrcMain.lean) against the implementation on the same ops, negative ints included',
+                'kernel-checked bridge theorems (A5/Proofs/SrcBridge*.lean, A5/Props/SrcTie/*.lean): translated source = hand-written model for EVERY non-negative id / every list of ids / every int argument']
+ASSUMPTIONS = ['the translator tools/py2lean.py and the operator semantics A5/Model/PySem.lean represent CPython faithfully on the integer core (validated every run by executing the translated source against the implementation)']
 LEVEL_TEXT = ('machine-checked proof (Lean 4 kernel) of the tree laws for every cell with symbolic position and unbounded depth, on a model tied to the source by '
-              'regenerated constants and differential correspondence')
-LEVEL_NOTE = 'trusted: Lean kernel + standard axioms; gen_tables.py; sampled model/implementation agreement on structured ops; CPython int semantics as modelled'
-TECHNIQUE = 'Lean 4 proof (refinement of cell_to_parent/cell_to_children to field arithmetic) + differential correspondence'
+              'per-run translation of the source with kernel-checked bridge theorems, regenerated constants and differential correspondence')
+LEVEL_NOTE = 'trusted: Lean kernel + standard axioms; gen_tables.py; py2lean.py + PySem.lean (translator and Python operator semantics, executed against the implementation every run); CPython int semantics as modelled there'
+TECHNIQUE = 'Lean 4 proof (refinement of cell_to_parent/cell_to_children to field arithmetic) + differential correspondence + source translated to Lean each run (py2lean) with bridge theorems Src = Model for all inputs'
 DESIGN_REF = 'DESIGN.md §3 C06'
 
 def gen_ops(tier, rng):
